@@ -54,7 +54,7 @@ impl CallWant {
 			},
 			Some("ext_info" | "ext_info_async") => r.result_raw.as_deref() == Some(handlers::EXT_INFO_RESULT),
 			Some("fail") => r.error_code == Some(1234) && r.error_data_raw.as_deref() == Some(echo_text),
-			Some("panic_blocking") => r.error_code == Some(classify::INTERNAL_ERROR),
+			Some("panic_blocking" | "unser_sync" | "unser_async" | "unser_blocking") => r.error_code == Some(classify::INTERNAL_ERROR),
 			Some("sub") => {
 				if self.http {
 					r.error_code == Some(classify::INTERNAL_ERROR)
